@@ -530,15 +530,18 @@ def Sys.init {D B : Type} (o : BackendOps D B) (n : Nat) : R (Sys B) :=
   | .error e => .error e
   | .ok p => .ok ⟨p, none, o.begin 0⟩
 
+/-- `BaseEngine._run`: the simulator state the program is run on -/
+def engineStart {D B : Type} (o : BackendOps D B) (s : Sys B) : R B :=
+  match s.prev with
+  | none =>
+    -- no previous segment: the back end gets `init_num_subsystems` contiguous modes, so a register that
+    -- starts with deleted subsystems is refused ("Register mismatch")
+    if s.prog.initRegRefs.all (·.active) then .ok (o.begin s.prog.initNum) else .error .runtime
+  | some pr => if s.prog.canFollow pr then .ok s.be else .error .runtime
+
 /-- `BaseEngine._run` for one program -/
 def engineRun {D B : Type} (o : BackendOps D B) (s : Sys B) : R (Sys B) :=
-  let start : R B := match s.prev with
-    | none =>
-      -- no previous segment: the back end gets `init_num_subsystems` contiguous modes, so a register that
-      -- starts with deleted subsystems is refused ("Register mismatch")
-      if s.prog.initRegRefs.all (·.active) then .ok (o.begin s.prog.initNum) else .error .runtime
-    | some pr => if s.prog.canFollow pr then .ok s.be else .error .runtime
-  match start with
+  match engineStart o s with
   | .error e => .error e
   | .ok b0 =>
     let p := s.prog.lock
@@ -639,5 +642,12 @@ def aStep {D : Type} [DataSem D] (r : Rows D) : Ev → Option (Rows D)
     | none => none
   | .endProg => some r
   | .reset n => if n < 1 then none else some (List.replicate n (some DataSem.vac))
+
+/-- abstract run of a whole history: rejected events change nothing -/
+def aRunHist {D : Type} [DataSem D] (r : Rows D) : List Ev → Rows D
+  | [] => r
+  | e :: es => match aStep r e with
+    | some r' => aRunHist r' es
+    | none => aRunHist r es
 
 end SFV.Reg
